@@ -157,5 +157,8 @@ QWithin(x, y, rel, abs) ==
 RECURSIVE QSumSeq(_)
 QSumSeq(s) == IF s = <<>> THEN Zero ELSE QAdd(Head(s), QSumSeq(Tail(s)))
 
-(* integer square root of a natural by bisection on the limb count (used relationally elsewhere) *)
+(* floor of the square root of a natural: Newton iteration from above (x0 = B^ceil(len/2) >= sqrt(a)) *)
+RECURSIVE NSqrtIter(_, _)
+NSqrtIter(a, x) == LET y == NDiv(NAdd(x, NDiv(a, x)), <<2>>) IN IF NCmp(y, x) >= 0 THEN x ELSE NSqrtIter(a, y)
+NSqrt(a) == IF a = <<>> THEN <<>> ELSE NSqrtIter(a, [i \in 1 .. ((Len(a) + 1) \div 2 + 1) |-> IF i = (Len(a) + 1) \div 2 + 1 THEN 1 ELSE 0])
 =============================================================================
